@@ -254,6 +254,11 @@ impl DB {
 
         // Create table cache
         let table_cache = Arc::new(TableCache::new(options.clone(), 1000));
+        #[cfg(raindb_verif)]
+        let table_cache = match crate::verif::table_cache_capacity() {
+            0 => table_cache,
+            capacity => Arc::new(TableCache::new(options.clone(), capacity)),
+        };
 
         // Initialize guarded fields
         let guarded_fields = Arc::new(Mutex::new(GuardedDbFields {
